@@ -137,6 +137,15 @@ func TestC07(t *testing.T) {
 func TestC09(t *testing.T) {
 	RunSeq(t, SeqCheck{
 		Prop: "C09",
+		GenOp: func(rt *rapid.T, w *World, pre *Snapshot, prof Profile) Op {
+			// now and then a command dies inside its log write: prune (dry run and real) must
+			// behave on a log with a torn tail too
+			if w.StepNo >= 3 && StraceAvailable() == nil && pct(rt, 7, "c09.tear") {
+				inner := genOp(rt, w, pre, Profile{Name: "inner", Weights: map[string]int{"new_task": 40, "set": 60}})
+				return Op{Kind: "fault", Inner: &inner, FaultKind: "tear", Frac: float64(uni(rt, 1000, "frac")) / 1000}
+			}
+			return genOp(rt, w, pre, prof)
+		},
 		Profile: Profile{Name: "prune", Weights: weightsWith(map[string]int{"prune": 8, "prune_yes": 14, "compact": 7, "set": 34, "claim_id": 6, "sequence": 10, "new_task": 16, "new_epic": 6}),
 			BadRef: 22, Spoil: 2, Results: 4, MinSteps: 8, MaxSteps: 34},
 		Rule: "random command histories mixing states and epic memberships with prune / prune --yes / compact and later commands aimed at pruned ids; non-trivial = a prune --yes that removes >= 1 item while >= 1 item stays, followed by a command on a pruned id or a compact" + distinctRule,
